@@ -17,7 +17,7 @@ for d in "$ROOT"/seeded/*/; do
   if ! git -C "$REPO" apply --check "$d/patch.diff" 2>/dev/null; then echo "$name: PATCH DOES NOT APPLY"; bad=1; continue; fi
   git -C "$REPO" apply "$d/patch.diff"
   out=$("$ROOT/check" "$id" quick 2>&1); r=$?
-  git -C "$REPO" checkout -q -- .
+  git -C "$REPO" checkout -q -- . ; git -C "$REPO" clean -fdq
   cls=$(echo "$out" | grep -E "^violation class" | sed 's/ cases=.*//; s/violation class=//' | tr '\n' ' ' | cut -c1-150)
   if [ $r -eq 1 ]; then echo "$name: detected [$cls]"; else echo "$name: MISSED (exit $r)"; bad=1; fi
 done
